@@ -27,9 +27,9 @@ theorem drop_take_append (s x : Bytes) (k a : Nat) (ha : a ≤ k) (hk : k ≤ s.
 
 /-- control: the answer depends only on the first `Length − 2` octets after the flag word -/
 theorem specControl_local (w : UInt16) (o : Opts) (s x : Bytes) (m : Msg) (k : Nat)
-    (h : Spec.decodeControl w o s = some (m, k)) :
-    k ≤ s.length ∧ Spec.decodeControl w o (s.take k ++ x) = some (m, k) := by
-  unfold Spec.decodeControl at h ⊢
+    (h : Spec.decodeControlM w o s = some (m, k)) :
+    k ≤ s.length ∧ Spec.decodeControlM w o (s.take k ++ x) = some (m, k) := by
+  unfold Spec.decodeControlM at h ⊢
   split at h
   · cases h
   rename_i c1
@@ -70,9 +70,9 @@ theorem specControl_local (w : UInt16) (o : Opts) (s x : Bytes) (m : Msg) (k : N
 
 /-- data with a Length field: the answer depends only on the first `Length − 2` octets after the flag word -/
 theorem specData_local (w : UInt16) (s x : Bytes) (m : Msg) (k : Nat) (hL : hasLength w = true)
-    (h : Spec.decodeData w s = some (m, k)) :
-    k ≤ s.length ∧ Spec.decodeData w (s.take k ++ x) = some (m, k) := by
-  unfold Spec.decodeData at h ⊢
+    (h : Spec.decodeDataM w s = some (m, k)) :
+    k ≤ s.length ∧ Spec.decodeDataM w (s.take k ++ x) = some (m, k) := by
+  unfold Spec.decodeDataM at h ⊢
   simp only [hL, if_true] at h ⊢
   generalize hpad : (if hasOffset w = true then (u16At s (dataNeed w - 2)).toNat else 0) = pad at h
   generalize hl : (u16At s 0).toNat = l at h
@@ -127,10 +127,10 @@ def Msg.hasDeclared : Msg → Bool
   | .data d => d.length.isSome
 
 /-- whole messages: replacing everything after the declared end leaves the answer unchanged -/
-theorem spec_local (o : Opts) (b x : Bytes) (m : Msg) (n : Nat) (h : Spec.decode o b = some (m, n))
+theorem spec_local (o : Opts) (b x : Bytes) (m : Msg) (n : Nat) (h : Spec.decodeM o b = some (m, n))
     (hdecl : m.hasDeclared = true) :
-    n ≤ b.length ∧ Spec.decode o (b.take n ++ x) = some (m, n) := by
-  unfold Spec.decode at h
+    n ≤ b.length ∧ Spec.decodeM o (b.take n ++ x) = some (m, n) := by
+  unfold Spec.decodeM at h
   split at h
   · cases h
   rename_i hlen
@@ -145,22 +145,22 @@ theorem spec_local (o : Opts) (b x : Bytes) (m : Msg) (n : Nat) (h : Spec.decode
   · cases h
   rename_i cr
   -- the inner answer
-  cases hin : (if isControl (word16 p q) = true then Spec.decodeControl (word16 p q) o t else Spec.decodeData (word16 p q) t) with
+  cases hin : (if isControl (word16 p q) = true then Spec.decodeControlM (word16 p q) o t else Spec.decodeDataM (word16 p q) t) with
   | none => rw [hin] at h; cases h
   | some pr =>
     obtain ⟨m', k⟩ := pr
     rw [hin] at h
     simp only [Option.map, Option.some.injEq, Prod.mk.injEq] at h
     obtain ⟨rfl, rfl⟩ := h
-    have key : k ≤ t.length ∧ (if isControl (word16 p q) = true then Spec.decodeControl (word16 p q) o (t.take k ++ x)
-        else Spec.decodeData (word16 p q) (t.take k ++ x)) = some (m', k) := by
+    have key : k ≤ t.length ∧ (if isControl (word16 p q) = true then Spec.decodeControlM (word16 p q) o (t.take k ++ x)
+        else Spec.decodeDataM (word16 p q) (t.take k ++ x)) = some (m', k) := by
       by_cases hc : isControl (word16 p q) = true
       · rw [if_pos hc] at hin ⊢
         exact specControl_local _ o t x m' k hin
       · rw [if_neg hc] at hin ⊢
         -- a data message: it carries a Length field by hypothesis
         have hL : hasLength (word16 p q) = true := by
-          unfold Spec.decodeData at hin
+          unfold Spec.decodeDataM at hin
           by_cases hL : hasLength (word16 p q) = true
           · exact hL
           · exfalso
@@ -183,7 +183,7 @@ theorem spec_local (o : Opts) (b x : Bytes) (m : Msg) (n : Nat) (h : Spec.decode
     refine ⟨by simp; omega, ?_⟩
     have ht : (p :: q :: t).take (k + 2) ++ x = p :: q :: (t.take k ++ x) := by simp
     rw [ht]
-    unfold Spec.decode
+    unfold Spec.decodeM
     rw [if_neg (by simp)]
     have hw' : u16At (p :: q :: (t.take k ++ x)) 0 = word16 p q := rfl
     have hd' : (p :: q :: (t.take k ++ x)).drop 2 = t.take k ++ x := rfl
